@@ -510,6 +510,35 @@ fn content_type_case(seed: u64, rep: &mut Report) {
     rep.distinct.insert(fnv(&format!("ct|{}|{:?}|{}", class, expected, reg_ids.join(","))));
     let detail = json!({"content_type": String::from_utf8_lossy(&bytes), "registered": reg_ids, "expected": expected});
     rep.sample(7, || json!({"sub": "content-type", "case_seed": seed, "case": detail.clone()}));
+    // the same decision seen through the request deserializers (blocking and async twins): the body `5` is decoded
+    // only if a registered encoding matches (all harness encodings but Smile read JSON)
+    {
+        use conjure_http::server::{AsyncDeserializeRequest, DeserializeRequest, StdRequestDeserializer};
+        let sync = guarded(|| <StdRequestDeserializer as DeserializeRequest<i32, _>>::deserialize(&runtime, &headers, labrt::Chunks::whole(b"5")));
+        let asyn = guarded(|| {
+            labrt::block_on(<StdRequestDeserializer as AsyncDeserializeRequest<i32, _>>::deserialize(&runtime, &headers, labrt::ChunkStream::new(labrt::Chunks::whole(b"5"))))
+        });
+        for (flavour, out) in [("blocking", sync), ("async", asyn)] {
+            rep.evaluations += 1;
+            rep.cell(&format!("content-type-deserializer/{}/{}", flavour, if expected.is_some() { "match" } else { "no-match" }));
+            match (expected, out) {
+                (_, Err(p)) => rep.violation("content-type", seed, format!("content-type:deserializer-panic:{}", flavour), json!({"case": detail, "panic": p})),
+                (None, Ok(Ok(v))) => rep.violation("content-type", seed, format!("content-type:body-decoded-without-a-matching-encoding:{}", flavour), json!({"case": detail, "value": v})),
+                (None, Ok(Err(e))) => {
+                    if !is_invalid_argument(&e) {
+                        rep.violation("content-type", seed, format!("content-type:deserializer-error-not-invalid-argument:{}", flavour), json!({"case": detail}));
+                    }
+                }
+                (Some("smile"), _) => {}
+                (Some(_), Ok(Err(e))) => rep.violation("content-type", seed, format!("content-type:body-rejected-though-registered:{}", flavour), json!({"case": detail, "error": format!("{:?}", e)})),
+                (Some(_), Ok(Ok(v))) => {
+                    if v != 5 {
+                        rep.violation("content-type", seed, format!("content-type:body-value-changed:{}", flavour), json!({"case": detail, "value": v}));
+                    }
+                }
+            }
+        }
+    }
     match got {
         Err(p) => rep.violation("content-type", seed, "content-type:panic", json!({"case": detail, "panic": p})),
         Ok(Ok(ct)) => {
